@@ -395,12 +395,33 @@ func interpretCode(ansiCode string, prevState *ansiState) ansiState {
 
 	state256 := 0
 	ptr := &state.fg
+	// Underline color is parsed like the other two, but not used
+	var ulColor tui.Color
 
 	count := 0
+	// The number is a sub-parameter of the previous one (i.e. follows a colon)
+	sub := false
+	main := -1
 	for len(ansiCode) != 0 {
 		var num int
-		if num, ansiCode = parseAnsiCode(ansiCode); num != -1 {
+		prev := ansiCode
+		num, ansiCode = parseAnsiCode(ansiCode)
+		wasSub := sub
+		consumed := len(prev) - len(ansiCode)
+		sub = consumed > 0 && prev[consumed-1] == ':'
+		if wasSub && state256 == 0 && main != 38 && main != 48 && main != 58 {
+			// A sub-parameter of a parameter that is not a color, e.g. the
+			// underline style in "4:3". It is not a parameter of its own.
+			if main == 4 && num == 0 {
+				state.attr = state.attr &^ tui.Underline
+			}
+			continue
+		}
+		if num != -1 {
 			count++
+			if state256 == 0 {
+				main = num
+			}
 			switch state256 {
 			case 0:
 				switch num {
@@ -409,6 +430,9 @@ func interpretCode(ansiCode string, prevState *ansiState) ansiState {
 					state256++
 				case 48:
 					ptr = &state.bg
+					state256++
+				case 58:
+					ptr = &ulColor
 					state256++
 				case 39:
 					state.fg = -1
